@@ -76,6 +76,9 @@ def build(spec, out_dir):
     seed = int(spec.get('seed', 0))
     rnd = random.Random(seed * 1009 + 7)
     nrng = np.random.default_rng(seed * 1009 + 7)
+    if 'value_seed' in spec:
+        # same names / orders, different numeric content
+        nrng = np.random.default_rng(int(spec['value_seed']))
     L = spec['L']
     shape = _as_shape(spec['shape'])
     scheme = spec.get('scheme', 'A')
@@ -196,10 +199,14 @@ def build(spec, out_dir):
     rnd.shuffle(q_genes)
     if q_genes[:n_ref] == ref_genes:
         q_genes = q_genes[::-1]
-    ids = [f'q{(k * 7 + 3) % (n_cells + 9)}' for k in range(n_cells)]
+    pre = spec.get('id_prefix', 'q')
+    ids = [f'{pre}{(k * 7 + 3) % (n_cells + 9)}' for k in range(n_cells)]
     # ids that sort differently as strings than as row numbers
     if len(set(ids)) != n_cells:
-        ids = [f'q{10 - k}' if k < 10 else f'q{k}x' for k in range(n_cells)]
+        ids = [f'{pre}{10 - k}' if k < 10 else f'{pre}{k}x'
+               for k in range(n_cells)]
+    if spec.get('reverse_ids'):
+        ids = ids[::-1]
     raw = np.zeros((n_cells, len(q_genes)))
     gene_to_ref = {g: j for j, g in enumerate(ref_genes)}
     for k in range(n_cells):
